@@ -27,10 +27,10 @@ impl Stats {
 
 pub struct Exec {
     pub stats: Stats,
-    /// oracle failures: (property, ops line number, description)
-    pub oracle_failures: Vec<(String, usize, String)>,
+    /// oracle failures: (property, ops line number, description, tag)
+    pub oracle_failures: Vec<(String, usize, String, String)>,
     pub line_no: usize,
-    pub l1: crate::exec_l1::L1State,
+    pub l1: Option<crate::exec_l1::L1State>,
 }
 
 fn elems(ls: &[NodeLabel]) -> Vec<AzksElement> {
@@ -119,13 +119,18 @@ impl Exec {
             stats: Stats::default(),
             oracle_failures: vec![],
             line_no: 0,
-            l1: Default::default(),
+            l1: None,
         }
     }
 
     pub fn fail(&mut self, prop: &str, what: String) {
+        self.fail_tag(prop, "", what)
+    }
+
+    /// `tag` names the failure class precisely; KNOWN_FINDINGS.json matches on it
+    pub fn fail_tag(&mut self, prop: &str, tag: &str, what: String) {
         self.oracle_failures
-            .push((prop.to_string(), self.line_no, what));
+            .push((prop.to_string(), self.line_no, what, tag.to_string()));
     }
 
     /// Runs one op; `None` = not an op this executor knows (`bad-op`).
